@@ -37,7 +37,7 @@ def run(tier, seed):
     ob = {"engine": "smt", "harness": "s05_4_filestore_hard_state", "encodes_files": FILES, "queries": 0, "solver_s": 0.0, "distinct": 0,
           "encodes": ["FileStore::{save_hard_state,get_initial_state}", "Handler<RaftIndexRequest>::handle", "RaftIndexManager::write_*", "RaftIndexInnerManager::{init,write_index,flush}",
                       "RaftIndex message code (generated)"],
-          "bound": "every history of %d steps over {save_hard_state(term < 2^14 non-decreasing, vote none or < 2^7), membership save}; get_initial_state after every step and after a restart" % n}
+          "bound": "every history of %d steps over {save_hard_state(term < 2^14 non-decreasing, vote none or < 2^7), membership save (uniform [1, 2] or the joint membership [1, 2, 3] -> [2, 3, 4] of a mid-change snapshot header)}; get_initial_state after every step and after a restart" % n}
     try:
         prog = load_program(FILES)
         it, fs = make(prog)
@@ -69,7 +69,8 @@ def run(tier, seed):
         votes = [z3.BitVec("vote%d" % i, 64) for i in range(n)]
         has_vote = [z3.Bool("step%d_has_vote" % i) for i in range(n)]
         rng = [z3.ULT(t, 1 << 14) for t in terms] + [z3.And(z3.UGT(v, 0), z3.ULT(v, 1 << 7)) for v in votes] + [z3.ULE(terms[i], terms[i + 1]) for i in range(n - 1)]
-        covers = {"a vote granted inside an already saved term": 0, "restart": 0, "membership save between two hard-state saves": 0}
+        covers = {"a vote granted inside an already saved term": 0, "restart": 0, "membership save between two hard-state saves": 0, "a joint membership is saved": 0}
+        joint_v = [z3.Bool("joint_membership%d" % i) for i in range(n)]
         ops_box = [[]]
 
         def possible(cond):
@@ -105,6 +106,10 @@ def run(tier, seed):
             mem = st["membership"]
             if list(mem["members"]) != ref["member"]:
                 return ("violation", "%s: membership %s reported, %s was acknowledged" % (where, list(mem["members"]), ref["member"]), log, "member-lost")
+            mac = mem["members_after_consensus"]
+            got_joint = sorted(mac.payload[0]) if isinstance(mac, Enum) and mac.variant == "Some" else None
+            if got_joint != ref.get("joint"):
+                return ("violation", "%s: get_initial_state reports the joint half (members after consensus) %s, the last acknowledged membership save has %s" % (where, got_joint, ref.get("joint")), log, "member-lost")
             return None
 
         def thunk():
@@ -137,13 +142,22 @@ def run(tier, seed):
                     ref.update({"term": terms[i], "vote": votes[i] if hv else None})
                     last_hs = i
                 else:
-                    msg = Enum("RaftIndexRequest", "SaveMember", {"member": [1, 2], "member_after_consensus": NONE, "node_addr": Some({1: "a:1", 2: "b:2"})})
+                    # a uniform membership [1, 2], or the joint membership of a snapshot header taken in the middle of a change ([1, 2, 3] -> [2, 3, 4]).
+                    # A save without a joint half keeps the stored one (what the handler does: the joint half is only ever replaced), so joint saves come last
+                    joint = it.branch(joint_v[i])
+                    if ref.get("joint") is not None and not joint:
+                        raise rseval.PathAbort()
+                    mlist, jl = ([1, 2, 3], [2, 3, 4]) if joint else ([1, 2], None)
+                    msg = Enum("RaftIndexRequest", "SaveMember", {"member": list(mlist), "member_after_consensus": Some(list(jl)) if jl else NONE, "node_addr": Some({1: "a:1", 2: "b:2"})})
                     r = it._invoke(handle, [actor, msg, "ctx"], self_ty="RaftIndexManager")
-                    rec.append({"op": "save-member", "member": [1, 2], "member_after_consensus": None, "node_addr": {"1": "a:1", "2": "b:2"}})
-                    log.append(("save-member", [1, 2]))
+                    rec.append({"op": "save-member", "member": list(mlist), "member_after_consensus": jl, "node_addr": {"1": "a:1", "2": "b:2"}})
+                    log.append(("save-member", mlist, jl))
                     if not (isinstance(r, Enum) and r.variant == "Ok"):
                         return ("violation", "a membership save is answered with an error", log, "save-error")
-                    ref["member"] = [1, 2]
+                    ref["member"] = list(mlist)
+                    if joint:
+                        ref["joint"] = list(jl)
+                        covers["a joint membership is saved"] += 1
                     if last_hs is not None and i + 1 < n:
                         covers["membership save between two hard-state saves"] += 1
                 bad = compare(store, ref, log, "same process, after step %d" % (i + 1))
